@@ -76,9 +76,9 @@ def _decode_hex_char(value: str, index: int, token: Token) -> tuple[int, int]:
     # TODO: use a regular expression?
     index += 1  # move past 'u'
 
-    if value[index] != "{":
+    if value[index : index + 1] != "{":
         raise PestGrammarSyntaxError(
-            f"expected an opening brace, found {value[index]}",
+            f"expected an opening brace, found {value[index : index + 1]!r}",
             token=token,
         )
 
